@@ -286,6 +286,7 @@ fn main() {
                 // a run is over early once every leaf has voted and a few more calls were refused
                 let mut after_full = 0;
                 for _ in 0..len {
+                    time_passes(&sys.e, &mut r, 3000);
                     let op = random_op(&mut r, &sys, &voted);
                     let ev = sys.step(&op);
                     voted = ev["obs"]["voted"].as_array().unwrap().iter().map(|x| x.as_u64().unwrap() as u32).collect();
